@@ -38,11 +38,14 @@ var (
 )
 
 var (
-	// instances holds, by database name, the cache of the data source that was opened for that database.
-	// Only one cache is registered per database type (the one of the data source opened last), so it has
-	// to hand a request for another database over to the cache that reads from the right data source.
-	instances     = map[string]*TableMetaCache{}
+	// instances holds, by database name, the caches of the data sources that were opened for a database of
+	// that name (the same name may be in use on several servers). Only one cache is registered per database
+	// type (the one of the data source opened last), so it has to hand a request over to a cache that reads
+	// from the right data source.
+	instances     = map[string][]*TableMetaCache{}
 	instancesLock sync.RWMutex
+	// tableOwners remembers which of several caches of one database name found a table
+	tableOwners sync.Map
 )
 
 type TableMetaCache struct {
@@ -57,7 +60,7 @@ func NewTableMetaInstance(db *sql.DB, cfg *mysql.Config) *TableMetaCache {
 	}
 	if cfg != nil {
 		instancesLock.Lock()
-		instances[cfg.DBName] = tableMetaInstance
+		instances[cfg.DBName] = append(instances[cfg.DBName], tableMetaInstance)
 		instancesLock.Unlock()
 	}
 	return tableMetaInstance
@@ -83,12 +86,36 @@ func (c *TableMetaCache) GetTableMeta(ctx context.Context, dbName, tableName str
 	}
 
 	instancesLock.RLock()
-	owner := instances[dbName]
+	candidates := instances[dbName]
 	instancesLock.RUnlock()
-	if owner != nil && owner != c {
-		return owner.GetTableMeta(ctx, dbName, tableName)
+	if len(candidates) == 0 || (len(candidates) == 1 && candidates[0] == c) {
+		return c.getTableMeta(ctx, dbName, tableName)
+	}
+	if len(candidates) == 1 {
+		return candidates[0].getTableMeta(ctx, dbName, tableName)
 	}
 
+	// several data sources serve a database of this name: the one that knows the table answers
+	ownerKey := dbName + "." + strings.ToUpper(tableName)
+	if owner, ok := tableOwners.Load(ownerKey); ok {
+		if meta, err := owner.(*TableMetaCache).getTableMeta(ctx, dbName, tableName); err == nil {
+			return meta, nil
+		}
+		tableOwners.Delete(ownerKey)
+	}
+	var lastErr error
+	for i := len(candidates) - 1; i >= 0; i-- {
+		meta, err := candidates[i].getTableMeta(ctx, dbName, tableName)
+		if err == nil {
+			tableOwners.Store(ownerKey, candidates[i])
+			return meta, nil
+		}
+		lastErr = err
+	}
+	return nil, lastErr
+}
+
+func (c *TableMetaCache) getTableMeta(ctx context.Context, dbName, tableName string) (*types.TableMeta, error) {
 	conn, err := c.db.Conn(ctx)
 	if err != nil {
 		return nil, err
